@@ -345,9 +345,15 @@ def i4(ctx):
                     continue
                 if not cfg.dominates(cn.idx, rn):
                     continue
-                t = cfg.forward_reachable([w for (w, lab) in cfg.succ[cn.idx] if lab is True])
-                fl = cfg.forward_reachable([w for (w, lab) in cfg.succ[cn.idx] if lab is False])
-                if (rn in t) != (rn in fl):
+                # which outcome says "within range"?  v < n / 0 <= v: the true one; n <= v / v < 0: the false one
+                small, big, strict = relation(cn.ast)
+                if member_path(strip_casts(small)) == v:
+                    in_range = const_eval(big) != 0
+                else:
+                    in_range = const_eval(small) in (0, -1)
+                good = cfg.forward_reachable([w for (w, lab) in cfg.succ[cn.idx] if lab is in_range])
+                bad = cfg.forward_reachable([w for (w, lab) in cfg.succ[cn.idx] if lab is (not in_range)])
+                if rn in good and rn not in bad:
                     ok = True
             owner = f if not f.is_lambda else prog.funcs.get(f.parent, f)
             ctx.check('%s/%s[%s]' % (short(owner), c.callee_name().replace('As', ''), 'counter' if
